@@ -32,7 +32,7 @@ def plan(tier):
 def gen_case(rng: Rng, i: int, tier: str):
     r = rng.sub("k")
     if r.chance(0.15):
-        fx, pw = r.pick(hist.FIXTURE_BASES)
+        fx, pw = r.pick(hist.DECODABLE_FIXTURE_BASES)
         return {"fixture": fx, "open": r.pick(["path", "stream", "anon"]), "supply_password": True}
     if rng.sub("src").chance(0.3):
         # an archive of the independent reference writer: members without attributes or times, empty files next to
@@ -68,7 +68,7 @@ def _built_from_fixture(fx):
     b.error = None
     with open(os.path.join(REPO, "tests", "data", fx), "rb") as f:
         b.image = f.read()
-    b.password = dict(hist.FIXTURE_BASES).get(fx)
+    b.password = dict(hist.DECODABLE_FIXTURE_BASES).get(fx)
     b.ref = ref7z.read(b.image, b.password)
     b.model = [rw.Mem(m.name, m.data, m.kind, m.mtime, m.attributes) for m in b.ref.members]
     b.nfolders = len(b.ref.main["folders"]) if b.ref.main and b.ref.main["folders"] else 0
